@@ -22,9 +22,58 @@ MIN, MAX, INIT = 100_000, 200_000_000, 1_000_000
 K = "srtla_core::selection::link_cc::"
 
 
+def tick_roles(ctx, fn):
+    """Locals of tick() by what they do: next (cast into the final clamp), next_state (stored into self.state), prev_state (copy of
+    self.state), prev (self.target_bps as f64), obs (the outlier-clamped observation: `min(..) as u64` of the observed parameter)."""
+    key = ("C16roles", ctx.w.uid, fn.id)
+    if key in tick_roles.cache:
+        return tick_roles.cache[key]
+    fa = ctx.fa(fn)
+    r = {"next": None, "next_state": None, "prev_state": None, "prev": None, "obs": None}
+    for (bb, si, s) in field_stores(fn, LCS, "target_bps"):
+        v = fa.val_rvalue(s["rv"], (bb, si))
+        if is_call(v, name_contains="::clamp") and v[2][0][0] == "cast" and v[2][0][2][0] == "var":
+            r["next"] = v[2][0][2][1]
+    for (bb, si, s) in field_stores(fn, LCS, "state"):
+        v = fa.val_rvalue(s["rv"], (bb, si))
+        if v[0] == "var":
+            r["next_state"] = v[1]
+    cands = {"prev_state": [], "prev": [], "obs": []}
+    for l, loc in enumerate(fn.locals):
+        if not fn.names.get(l):
+            continue
+        ds = [d for d in fa.defs.get(l, []) if d[2] == "assign"]
+        if len(ds) != 1:
+            continue
+        v = strip_old(fa.val_rvalue(ds[0][3], (ds[0][0], ds[0][1])))
+        if v == ("field", ("param", 1), LCS, "state"):
+            cands["prev_state"].append(l)
+        if v[0] == "cast" and loc["ty"] == "f64" and strip_old(v[2]) == ("field", ("param", 1), LCS, "target_bps"):
+            cands["prev"].append(l)
+        if v[0] == "cast" and loc["ty"] == "u64" and is_call(strip_old(v[2]), name_contains="::min") and any(x == ("param", 2) for x in walk(v)):
+            cands["obs"].append(l)
+    hints = {"prev_state": "prev_state", "prev": "prev", "obs": "sane_observed"}
+    for k, c in cands.items():
+        if len(c) == 1:
+            r[k] = c[0]
+        else:
+            named = [l for l in c if fn.names.get(l) == hints[k]]
+            r[k] = named[0] if len(named) == 1 else None
+    tick_roles.cache[key] = r
+    return r
+
+
+tick_roles.cache = {}
+
+
 def _run_tick(ctx, fn):
     ai = AbsInt(ctx.w)
-    ai.name_syms = {(fn.stable, "prev"): "prev", (fn.stable, "sane_observed"): "obs"}
+    r = tick_roles(ctx, fn)
+    ai.name_syms = {}
+    if r["prev"] is not None:
+        ai.name_syms[(fn.stable, r["prev"])] = "prev"
+    if r["obs"] is not None:
+        ai.name_syms[(fn.stable, r["obs"])] = "obs"
     e = Entry().sym("p", MIN, MAX).sym("o", 0, 2**64 - 1)
     e.pointee(1, Num("u64", MIN, MAX, False, ("s", "p")), (("f", "target_bps"),))
     e.param(2, Num("u64", 0, 2**64 - 1, False, ("s", "o")))
@@ -111,12 +160,13 @@ def d3_direction(ctx):
     env = ai.symenv
     P = ("s", "prev")
     O = ("s", "obs")
-    defs = [(bb, si, val, loc) for (f, l, name, val, bb, si, loc) in ai.local_defs if f is fn and name == "next"]
+    R = tick_roles(ctx, fn)
+    defs = [(bb, si, val, loc) for (f, l, name, val, bb, si, loc) in ai.local_defs if f is fn and R["next"] is not None and l == R["next"]]
     ctx.chk.floor("D3", "assignments to `next` (one per arm / sub-arm)", len(set((d[0], d[1]) for d in defs)), 7)
-    ns = [l for l, n in fn.names.items() if n == "next_state"]
-    ps = [l for l, n in fn.names.items() if n == "prev_state"]
+    ns = [R["next_state"]] if R["next_state"] is not None else []
+    ps = [R["prev_state"]] if R["prev_state"] is not None else []
     if not ns:
-        ctx.chk.missing("D3", "tick: local next_state", "")
+        ctx.chk.missing("D3", "tick: the state value that is stored into self.state", "")
         return
     seen = set()
     for (bb, si, val, loc) in defs:
@@ -181,11 +231,11 @@ def d3_direction(ctx):
     okf = False
     for (bb, si, s) in fin:
         v = pa.fa.val_rvalue(s["rv"], (bb, si))
-        if is_call(v, name_contains="::clamp") and v[2][0][0] == "cast" and v[2][0][2][0] == "var" and fn.names.get(v[2][0][2][1]) == "next":
+        if is_call(v, name_contains="::clamp") and v[2][0][0] == "cast" and v[2][0][2][0] == "var" and v[2][0][2][1] == R["next"]:
             okf = v[2][1][0] in ("const", "constdef") and v[2][2][0] in ("const", "constdef")
     ctx.chk.ob("D3", "the target becomes clamp(next as u64, MIN, MAX)", okf, "", key="D3:final-clamp")
     # obs is the outlier-clamped observation
-    so = [(val, loc) for (f, l, name, val, bb, si, loc) in ai.local_defs if f is fn and name == "sane_observed"]
+    so = [(val, loc) for (f, l, name, val, bb, si, loc) in ai.local_defs if f is fn and R["obs"] is not None and l == R["obs"]]
     ctx.chk.ob("D3", "the observation is clamped to 4x max(target, 1M) before use", bool(so) and all(isinstance(v, Num) and v.hi <= 4 * MAX for v, _ in so),
                "%s" % [repr(v) for v, _ in so], key="D3:outlier-clamp")
     for n, v in (("BACKOFF_PERMILLE", 850), ("DRAIN_PERMILLE", 750), ("AI_STEP_PERMILLE", 20), ("HAI_STEP_PERMILLE", 60), ("FAST_RECOVERY_STEP_PERMILLE", 40)):
@@ -323,7 +373,7 @@ def d6_seed_once(ctx):
         # and the seeding tick overwrites the state with next_state, which is never Bootstrap
         boots = []
         okb = True
-        ns = [l for l, n in fn.names.items() if n == "next_state"]
+        ns = [tick_roles(ctx, fn)["next_state"]] if tick_roles(ctx, fn)["next_state"] is not None else []
         for (bb, si, s) in field_stores(fn, LCS, "state"):
             v = pa.fa.val_rvalue(s["rv"], (bb, si))
             if v[0] == "agg" and v[2].endswith("CcState::Bootstrap"):
